@@ -51,6 +51,20 @@ func Harness_C20_grpc_ctrl_params() {
 	if ctrl != nil {
 		verifAssert(ctrl.GetId() == r.Ctrl.Id && ctrl.GetTopic() == r.Ctrl.Topic && int(ctrl.GetCode()) == r.Ctrl.Code && ctrl.GetText() == r.Ctrl.Text, "ctrl-fields-carried")
 		verifAssert(len(ctrl.GetParams()) == want, "ctrl-params-carried-in-the-protobuf-rendering")
+		// each value is carried as its JSON rendering (what the JSON transport shows and what the client-side
+		// converter decodes), whatever Go map type the handler used
+		switch in := r.Ctrl.Params.(type) {
+		case map[string]string:
+			for k, v := range in {
+				exp, _ := json.Marshal(v)
+				verifAssert(string(ctrl.GetParams()[k]) == string(exp), "ctrl-param-value-is-its-json-rendering")
+			}
+		case map[string]any:
+			for k, v := range in {
+				exp, _ := json.Marshal(v)
+				verifAssert(string(ctrl.GetParams()[k]) == string(exp), "ctrl-param-value-is-its-json-rendering")
+			}
+		}
 	}
 	verifReach("end")
 }
